@@ -21,6 +21,8 @@ GEN_SPEC = {"items": [
     {"kind": "calls", "file": _F, "func": "TimingWheel.RemoveTimer", "as": "RemoveTimer_calls"},
     {"kind": "calls", "file": _F, "func": "TimingWheel.Drain", "as": "Drain_calls"},
     {"kind": "const", "file": _F, "name": "drainWorkers"},
+    {"kind": "const", "file": "lib/collection/safemap.go", "name": "maxDeletion"},
+    {"kind": "const", "file": "lib/collection/safemap.go", "name": "copyThreshold"},
 ]}
 QUICK_N = 400
 THOROUGH_N = 6000
@@ -34,7 +36,8 @@ RULE = ("one wheel per case: slot count N in {1..7,10,16,60,300}, interval in {1
         "shutdown stream (Drain then ticks, Stop then further calls, double Stop) and a malformed stream (nil key, "
         "delay <= 0, delay < interval, calls after Drain, interval/slots <= 0); non-trivial = at least one callback "
         "observed and at least one Move or re-Set of a pending key; distinct = distinct canonical case JSON")
-TRUSTED = ["SafeMap behaves as a map (timers index; modelled as an association list)",
+TRUSTED = ["the wheel model uses a plain association list for the timers index; that SafeMap refines a plain map is proved "
+           "(c10_safemap_refines_map) and corresponded on its own histories (kind safemap)",
            "container/list (slots modelled as lists of heap ids), goroutine scheduling of the callback goroutines "
            "(the driver waits until they have exited before the next call; bounded wait, timeouts counted in "
            "input_distribution as obs:settle-timeout)",
@@ -140,8 +143,56 @@ def _directed(rng):
     return {"kind": "wheel", "interval": iv, "slots": n, "calls": calls}
 
 
+def _sm_gets(keys):
+    return [{"op": "get", "k": k} for k in keys]
+
+
+def _safemap_cases(rng, tier):
+    """SafeMap histories that reach both compaction branches with a NON-empty other generation (the
+    thresholds are 10000 deletions / 1000 live entries, hence the compact `churn` op), plus small random ones."""
+    out = []
+    live = 1000 + rng.randrange(5, 120)
+    fresh = [200000 + rng.randrange(1000) * 7 + i for i in range(rng.randint(2, 6))]
+    # (1) old generation over the deletion limit while still >= 1000 live -> Puts go to the new generation ->
+    #     deleting old entries down to 999 merges old INTO new
+    ops = [{"op": "put", "k": k, "v": k + 1} for k in range(live)]
+    ops += [{"op": "churn", "k": 100000, "n": 10001}, {"op": "dump"}]
+    ops += [{"op": "put", "k": k, "v": k * 3} for k in fresh] + [{"op": "dump"}] + _sm_gets(fresh)
+    if rng.random() < 0.5:
+        ops += [{"op": "put", "k": 5, "v": 55}, {"op": "get", "k": 5}]      # re-Put of an old key while in new mode
+    ops += [{"op": "del", "k": k} for k in range(10, 10 + live - 999 + 3)]
+    ops += [{"op": "dump"}] + _sm_gets(fresh + [0, 5, 9, 10, 11, live - 1, 100000, 110000])
+    ops += [{"op": "del", "k": fresh[0]}, {"op": "get", "k": fresh[0]}, {"op": "put", "k": fresh[0], "v": 1}, {"op": "get", "k": fresh[0]}, {"op": "dump"}]
+    out.append({"kind": "safemap", "ops": ops})
+    # (2) new generation reaches the deletion limit with < 1000 live -> merged back INTO old
+    ops = [{"op": "put", "k": k, "v": k + 1} for k in range(live)]
+    ops += [{"op": "churn", "k": 100000, "n": 10001}]
+    ops += [{"op": "put", "k": k, "v": k * 3} for k in fresh] + [{"op": "churn", "k": 300000, "n": 9999}, {"op": "dump"}]
+    ops += [{"op": "del", "k": fresh[-1]}, {"op": "dump"}] + _sm_gets(fresh + [0, 1, live - 1, 300000])
+    ops += [{"op": "put", "k": 777777, "v": 7}, {"op": "dump"}, {"op": "get", "k": 777777}]
+    out.append({"kind": "safemap", "ops": ops})
+    for _ in range(3 if tier != "thorough" else 12):
+        ops = []
+        keys = list(range(8))
+        for _ in range(rng.randint(10, 60)):
+            r = rng.random()
+            k = rng.choice(keys)
+            if r < 0.4:
+                ops.append({"op": "put", "k": k, "v": rng.randrange(100)})
+            elif r < 0.65:
+                ops.append({"op": "del", "k": k})
+            elif r < 0.95:
+                ops.append({"op": "get", "k": k})
+            else:
+                ops.append({"op": "dump"})
+        out.append({"kind": "safemap", "ops": ops})
+    return out
+
+
 def generate(rng, tier, n):
     cases = []
+    if tier != "search":
+        cases.extend(_safemap_cases(rng, tier))
     if tier != "search":
         cases.append({"kind": "wheel", "interval": 0, "slots": 3, "calls": []})
         cases.append({"kind": "wheel", "interval": 1000, "slots": 0, "calls": []})
@@ -185,7 +236,30 @@ def _pairs(ps):
     return clist(["(%s, %s)" % (cnat(int(p["k"][1:])), cnat(p["v"])) for p in ps])
 
 
+def _encode_safemap(case, obs):
+    from vlib import cN, copt
+    res = list(obs.get("res", []))
+    ops = []
+    for o in case["ops"]:
+        k = o["op"]
+        if k == "put":
+            ops.append("OPut %s %s" % (cN(o["k"]), cN(o["v"])))
+        elif k == "del":
+            ops.append("ODel %s" % cN(o["k"]))
+        elif k == "churn":
+            ops.append("OChurn %s %s" % (cN(o["k"]), cN(o["n"])))
+        elif k == "get":
+            r = res.pop(0) if res else [-2]
+            ops.append("OGet %s %s" % (cN(o["k"]), copt(None if r[0] < 0 else cN(r[0]))))
+        else:
+            r = res.pop(0) if res else [0, 0, 0, 0, 0]
+            ops.append("ODump %s" % " ".join(cN(x) for x in r))
+    return "CSM %s" % clist(ops)
+
+
 def encode(case, obs):
+    if case.get("kind") == "safemap":
+        return _encode_safemap(case, obs)
     calls = []
     for c in case["calls"]:
         op = c["op"]
@@ -202,7 +276,7 @@ def encode(case, obs):
         else:
             calls.append("CStop")
     os_ = ["mkObs %s %s %s" % (cnat(o["err"]), _pairs(o["fired"]), _pairs(o["drained"])) for o in obs.get("obs", [])]
-    return "mkcase %s %s %s %s %s" % (cZ(case["interval"]), cZ(case["slots"]), clist(calls), cbool(obs.get("new_ok", False)), clist(os_))
+    return "CW (mkcase %s %s %s %s %s)" % (cZ(case["interval"]), cZ(case["slots"]), clist(calls), cbool(obs.get("new_ok", False)), clist(os_))
 
 
 def _resched(case):
@@ -218,10 +292,15 @@ def _resched(case):
 
 
 def nontrivial(case, obs):
+    if case.get("kind") == "safemap":
+        return any(o["op"] == "get" for o in case["ops"]) and any(o["op"] in ("del", "churn") for o in case["ops"])
     return any(o["fired"] for o in obs.get("obs", [])) and _resched(case)
 
 
 def bucket(case, obs):
+    if case.get("kind") == "safemap":
+        big = any(o["op"] == "churn" for o in case["ops"])
+        return ["safemap:" + ("compaction" if big else "small")]
     n = case["slots"]
     out = ["N=%s" % (n if n <= 7 else ("8-16" if n <= 16 else ">16")), "calls=%d" % (len(case["calls"]) // 50 * 50)]
     kinds = {c["op"] for c in case["calls"]}
@@ -248,6 +327,9 @@ def bucket(case, obs):
 
 
 def explain(case, obs):
+    if case.get("kind") == "safemap":
+        return ("a Get (or Size) of the real SafeMap differs from the plain association map after the same Put/Del history "
+                "(c10_safemap_refines_map): an entry was lost or resurrected by a generation switch / compaction")
     return ("observed callbacks contradict C10.Exec.spec_ok: replaying the calls on the abstract timer "
             "(key -> (value, due tick = T + floor(delay/interval))) some tick fired a different multiset of (key,value) "
             "than the tasks due at it (c10_refines_timer_spec / c10_exactly_once), a removed or drained task fired, "
